@@ -784,7 +784,7 @@ def selftest():
     fails = []
     # every functools.lru_cache of the package is in MEMOS
     found = []
-    for root, _dirs, files in os.walk("/repo/liquid"):
+    for root, _dirs, files in os.walk(os.path.join(os.environ.get("VF_REPO", "/repo"), "liquid")):
         for fn in files:
             if fn.endswith(".py") and fn != "lru_cache.py":
                 txt = open(os.path.join(root, fn), encoding="utf-8").read()
